@@ -68,6 +68,18 @@ func (w *World) checkSupply(m, amount spice.Melange) {
 	}
 }
 
+// checkNew judges the constructor: it may normalise (one carry) or hand the pair on as it is (non canonical
+// amounts are refused by every operation and by the ledger), but a canonical result has to be worth exactly
+// currency*10^18 + supplementary: a constructor that wraps around destroys value before any check can see it.
+func (w *World) checkNew(c, s uint64) {
+	got := spice.New(c, s)
+	w.probe("c05-api-ops")
+	want := melVal(spice.Melange{Currency: c, SupplementaryCurrency: s})
+	if canonical(got) && melVal(got).Cmp(want) != 0 {
+		w.violate("C05", "exact", "constructor-wrapped-around", -1, "New(%d,%d) = %s, exact %s", c, s, melStr(got), want)
+	}
+}
+
 // checkTransfer judges one Transfer (Drain is Transfer with the receiver as source).
 func (w *World) checkTransfer(amount, from, to spice.Melange, viaDrain bool) {
 	if !canonical(from) || !canonical(to) {
@@ -122,6 +134,7 @@ func bankScenario(w *World, p *Plan, rec *Record) {
 		ai := int(p.Seed % uint64(len(pairs)))
 		amt := pairs[ai]
 		for _, a := range pairs {
+			w.checkNew(a.Currency, a.SupplementaryCurrency)
 			w.checkSupply(a, amt)
 			for _, b := range pairs {
 				w.checkTransfer(amt, a, b, false)
@@ -147,6 +160,16 @@ func bankScenario(w *World, p *Plan, rec *Record) {
 		purses[i] = spice.Melange{Currency: c, SupplementaryCurrency: s}
 		ref[i] = melVal(purses[i])
 		total.Add(total, ref[i])
+	}
+	for k := 0; k < 8; k++ {
+		c, s := c05Cur[r.Intn(len(c05Cur))], c05Sup[r.Intn(len(c05Sup))]
+		if r.Chance(0.5) {
+			c = ^uint64(0) - uint64(r.Intn(3))
+		}
+		if r.Chance(0.5) {
+			s = e18u - 2 + uint64(r.Intn(5))
+		}
+		w.checkNew(c, s)
 	}
 	var ops []c05op
 	for k := 0; k < 40; k++ {
